@@ -36,7 +36,7 @@ class Recorder:
             self.keep.append(F)
         return self.logs[k]
 
-    def insert_event(self, F, lits, checked):
+    def insert_event(self, F, lits, checked, pre):
         mv, bad = 0, 0
         for l in lits:
             if isinstance(l, bool) or not isinstance(l, numbers.Integral) or l == 0:
@@ -45,14 +45,14 @@ class Recorder:
                 mv = max(mv, abs(int(l)))
         lg = self.log(F)
         nv = int(F.number_of_variables())
-        if lg and lg[-1]["t"] == "i" and lg[-1]["checked"] == checked:
+        if lg and lg[-1]["t"] == "i" and lg[-1]["checked"] == checked and lg[-1]["nv"] == pre:
             e = lg[-1]
             e["maxvar"] = max(e["maxvar"], mv)
             e["bad"] += bad
             e["nv"] = nv
             e["count"] += 1
         else:
-            lg.append({"t": "i", "maxvar": mv, "bad": bad, "checked": checked, "nv": nv, "count": 1})
+            lg.append({"t": "i", "maxvar": mv, "bad": bad, "checked": checked, "nv": nv, "count": 1, "pre": pre})
 
     def install(self):
         if self.installed:
@@ -63,21 +63,22 @@ class Recorder:
         rec = self
         for name in ("add_clause", "update_variable_number"):
             if not hasattr(BaseCNF, name) or not hasattr(BaseOPB, name):
-                raise tlc.MachineryError("wrapped method %s disappeared" % name)
-        if not hasattr(BaseOPB, "add_constraint") or not hasattr(VariablesManager, "_add_variable_group"):
-            raise tlc.MachineryError("wrapped method disappeared")
+                raise tlc.MachineryError("public method %s disappeared" % name)
+        if not hasattr(BaseOPB, "add_constraint"):
+            raise tlc.MachineryError("public method add_constraint disappeared")
 
         def wrap_add_clause(cls):
             orig = cls.add_clause
 
             def add_clause(self, clause, check=True):
                 data = list(clause)
+                pre = int(self.number_of_variables())
                 rec.depth += 1
                 try:
                     r = orig(self, data, check)
                 finally:
                     rec.depth -= 1
-                rec.insert_event(self, data, bool(check))
+                rec.insert_event(self, data, bool(check), pre)
                 return r
             cls.add_clause = add_clause
 
@@ -87,13 +88,14 @@ class Recorder:
 
         def add_constraint(self, constraint, check=True):
             data = list(constraint)
+            pre = int(self.number_of_variables())
             rec.depth += 1
             try:
                 r = orig_addc(self, data, check)
             finally:
                 rec.depth -= 1
             lits = [t[1] for t in data[:-2]]
-            rec.insert_event(self, lits, bool(check))
+            rec.insert_event(self, lits, bool(check), pre)
             return r
         BaseOPB.add_constraint = add_constraint
 
@@ -101,27 +103,48 @@ class Recorder:
             orig = cls.update_variable_number
 
             def update_variable_number(self, new_value):
+                pre = int(self.number_of_variables())
                 r = orig(self, new_value)
                 if rec.depth == 0:
-                    rec.log(self).append({"t": "r", "k": int(new_value), "nv": int(self.number_of_variables())})
+                    rec.log(self).append({"t": "r", "k": int(new_value), "nv": int(self.number_of_variables()),
+                                          "pre": pre})
                 return r
             cls.update_variable_number = update_variable_number
         wrap_update(BaseCNF)
         wrap_update(BaseOPB)
-        orig_grp = VariablesManager._add_variable_group
 
-        def _add_variable_group(self, vg):
-            rec.depth += 1
-            try:
-                r = orig_grp(self, vg)
-            finally:
-                rec.depth -= 1
-            F = self._formula
-            n = len(vg)
-            rec.log(F).append({"t": "g", "first": int(vg[0]) if n else 0, "len": int(n),
-                               "nv": int(F.number_of_variables())})
-            return r
-        VariablesManager._add_variable_group = _add_variable_group
+        # group creation is observed at the public constructors new_* (outermost call only): the identifiers
+        # handed out are read off what the call returns
+        def wrap_new(name):
+            orig = getattr(VariablesManager, name)
+
+            def new_group(self, *a, **k):
+                pre = int(self.number_of_variables())
+                outer = rec.depth == 0
+                rec.depth += 1
+                try:
+                    r = orig(self, *a, **k)
+                finally:
+                    rec.depth -= 1
+                if outer:
+                    if isinstance(r, numbers.Integral):
+                        ids = [int(r)]
+                    else:
+                        try:
+                            x = r()
+                            ids = [int(x)] if isinstance(x, numbers.Integral) else [int(v) for v in x]
+                        except Exception:
+                            ids = [int(r[j]) for j in range(len(r))]
+                    rec.log(self).append({"t": "g", "first": min(ids) if ids else 0, "len": len(ids),
+                                          "nv": int(self.number_of_variables()), "pre": pre})
+                return r
+            new_group.__name__ = name
+            setattr(VariablesManager, name, new_group)
+        names = [n for n in dir(VariablesManager) if n.startswith("new_") and callable(getattr(VariablesManager, n))]
+        if not names:
+            raise tlc.MachineryError("no public new_* constructor on VariablesManager")
+        for n in names:
+            wrap_new(n)
         self.installed = True
 
     def events(self, F):
@@ -240,12 +263,57 @@ def families(ck):
         add("vdw3-%d" % t, "vdw", {"N": vN, "K": [3, 4, 5]}, lambda c, vN=vN: cnfgen.VanDerWaerden(vN, 3, 4, 5, formula_class=c))
         pN = rng.randint(30, 120)
         add("ptn-%d" % t, "ptn", {"N": pN}, lambda c, pN=pN: cnfgen.PythagoreanTriples(pN, formula_class=c))
+    # the degenerate corners of the parameter space (sizes 0 and 1): the documented count must hold there too
+    for m, n in ((0, 0), (1, 0), (0, 1), (1, 1), (1, 2), (2, 1)):
+        add("php0-%d-%d" % (m, n), "php", {"m": m, "n": n, "fun": True, "onto": True},
+            lambda c, m=m, n=n: cnfgen.PigeonholePrinciple(m, n, True, True, formula_class=c))
+    for m, n in ((3, 1), (1, 1), (2, 2), (1, 2), (4, 3)):
+        add("bphp0-%d-%d" % (m, n), "bphp", {"m": m, "n": n},
+            lambda c, m=m, n=n: cnfgen.BinaryPigeonholePrinciple(m, n, formula_class=c))
+    for a, b, c_ in ((1, 1, 1), (2, 1, 1), (1, 2, 1), (1, 1, 2)):
+        add("rphp0-%d%d%d" % (a, b, c_), "rphp", {"m": a, "r": b, "n": c_},
+            lambda c, a=a, b=b, c_=c_: cnfgen.RelativizedPigeonholePrinciple(a, b, c_, formula_class=c))
+    for M, p_ in ((1, 1), (2, 2), (3, 1), (2, 1)):
+        add("count0-%d-%d" % (M, p_), "count", {"M": M, "p": p_},
+            lambda c, M=M, p_=p_: cnfgen.CountingPrinciple(M, p_, formula_class=c))
+    for cn, ck_, cc in ((1, 1, 1), (2, 1, 2), (3, 2, 1), (2, 2, 2)):
+        add("cliquecol0-%d%d%d" % (cn, ck_, cc), "cliquecol", {"n": cn, "k": ck_, "c": cc},
+            lambda c, cn=cn, ck_=ck_, cc=cc: cnfgen.CliqueColoring(cn, ck_, cc, formula_class=c))
+    for n1, e1, kk in ((1, [], 1), (2, [[1, 2]], 1), (2, [], 2), (3, [[1, 2]], 2)):
+        G = {"n": n1, "edges": e1}
+        add("kclique0-%d-%d-%d" % (n1, len(e1), kk), "kclique", {"k": kk, "sb": False},
+            lambda c, n1=n1, e1=e1, kk=kk: cnfgen.CliqueFormula(gen.mk_graph(n1, e1), kk, False, formula_class=c), G)
+        add("binclique0-%d-%d-%d" % (n1, len(e1), kk), "binclique", {"k": kk, "sb": False},
+            lambda c, n1=n1, e1=e1, kk=kk: cnfgen.BinaryCliqueFormula(gen.mk_graph(n1, e1), kk, False, formula_class=c), G)
+        add("kcolor0-%d-%d-%d" % (n1, len(e1), kk), "kcolor", {"k": kk, "fun": True},
+            lambda c, n1=n1, e1=e1, kk=kk: cnfgen.GraphColoringFormula(gen.mk_graph(n1, e1), kk, True, formula_class=c), G)
+        add("tseitin0-%d-%d" % (n1, len(e1)), "tseitin", {"chmode": "list", "ch": [True] * n1},
+            lambda c, n1=n1, e1=e1: cnfgen.TseitinFormula(gen.mk_graph(n1, e1), [True] * n1, formula_class=c), G)
+    for ca, cb, cc2 in ((1, 1, 1), (2, 1, 2), (2, 2, 1), (1, 2, 2)):
+        add("cpls0-%d%d%d" % (ca, cb, cc2), "cpls", {"a": ca, "b": cb, "c": cc2},
+            lambda c, ca=ca, cb=cb, cc2=cc2: cnfgen.CPLSFormula(ca, cb, cc2, formula_class=c))
+    for on in (1, 2):
+        add("op0-%d" % on, "op", {"n": on, "total": False, "smart": False, "plant": False, "knuth": 0},
+            lambda c, on=on: cnfgen.OrderingPrinciple(on, False, False, False, 0, formula_class=c))
+    add("ram0", "ram", {"s": 1, "k": 1, "N": 1}, lambda c: cnfgen.RamseyNumber(1, 1, 1, formula_class=c))
+    add("ram1", "ram", {"s": 2, "k": 1, "N": 2}, lambda c: cnfgen.RamseyNumber(2, 1, 2, formula_class=c))
+    add("vdw0", "vdw", {"N": 1, "K": [2, 2]}, lambda c: cnfgen.VanDerWaerden(1, 2, 2, formula_class=c))
+    add("ptn0", "ptn", {"N": 1}, lambda c: cnfgen.PythagoreanTriples(1, formula_class=c))
     return out
 
 
 CHAIN_KINDS = [("xor", 2, 0), ("or", 3, 0), ("maj", 3, 0), ("eq", 2, 0), ("neq", 3, 0), ("one", 3, 0),
                ("exact", 3, 2), ("atleast", 3, 2), ("atmost", 4, 1), ("anybut", 3, 1),
                ("ite", 1, 0), ("flip", 1, 0), ("lift", 2, 0), ("shuffle", 1, 0)]
+
+
+INSERT_ROUTES = [("add_clause", ()), ("add_clauses_from", ()),
+                 ("add_linear", (">=", 1)), ("add_linear", ("<=", 1)), ("add_linear", ("==", 1)),
+                 ("add_linear", ("!=", 1)), ("add_linear", (">", 0)), ("add_linear", ("<", 2)),
+                 ("cardinality_geq", (1,)), ("cardinality_leq", (1,)), ("cardinality_eq", (1,)),
+                 ("cardinality_neq", (1,)), ("add_parity", (1,)), ("add_parity", (0,)),
+                 ("add_loose_majority", ()), ("add_strict_majority", ()), ("add_loose_minority", ()),
+                 ("add_strict_minority", ())]
 
 
 def final_listing(F):
@@ -530,7 +598,15 @@ def main(argv=None):
                     if c["act"] == "insert":
                         mv = c["mv"]
                         clause = [] if mv == 0 else ([-mv] if mv == 1 else [1, -mv])
-                        F.add_clause(clause, check=bool(c["checked"]))
+                        # a checked insertion may reach the store through any of the builders
+                        routes = INSERT_ROUTES if (c["checked"] and mv > 0) else INSERT_ROUTES[:2]
+                        name, args = routes[(j + len(h) * 7 + mv) % len(routes)]
+                        if not hasattr(F, name):
+                            name, args = "add_clause", ()
+                        if name == "add_clauses_from":
+                            F.add_clauses_from([clause], check=bool(c["checked"]))
+                        else:
+                            getattr(F, name)(clause, *args, check=bool(c["checked"]))
                     elif c["act"] == "group":
                         F.new_block(c["len"], label="b%d_{}" % j)
                     else:
